@@ -886,3 +886,37 @@ Example pool_run_grows :
   grows_only Fixed 4 (binit (fun _ _ => 7%N))
              [BGet 0 2 None; BAppend 0 [1; 2]%N; BPut 0; BGet 1 0 (Some 0); BAppend 1 [9]%N; BResize 1 3].
 Proof. cbn. repeat split; lia. Qed.
+
+(* ---------------------------------------------------------------------------------------- *)
+(* scratch objects: one hasher per call isolates the callers; a shared one does not *)
+
+Lemma hrun_gen hid (Hinj : forall a b, hid a = hid b -> a = b) es :
+  forall h res acc, (forall t, h (hid t) = acc t) ->
+  snd (hrun hid (h, res) es) = res ++ hexpect es acc.
+Proof.
+  induction es as [|[t op] es IH]; intros h res acc Hacc; cbn [hrun fold_left hexpect].
+  - cbn. symmetry. apply app_nil_r.
+  - unfold hrun in IH. cbn [hstep fst snd]. destruct op as [|d|]; cbn [fst snd].
+    + apply IH. intro t'. destruct (Nat.eq_dec t' t) as [->|Hne].
+      * rewrite !upd_same. reflexivity.
+      * rewrite (upd_other acc) by exact Hne. rewrite upd_other; [apply Hacc|].
+        intro E. apply Hne. apply Hinj. exact E.
+    + apply IH. intro t'. destruct (Nat.eq_dec t' t) as [->|Hne].
+      * rewrite !upd_same. rewrite Hacc. reflexivity.
+      * rewrite (upd_other acc) by exact Hne. rewrite upd_other; [apply Hacc|].
+        intro E. apply Hne. apply Hinj. exact E.
+    + rewrite (IH h (res ++ [(t, h (hid t))]) acc Hacc). rewrite <- app_assoc. cbn [app].
+      rewrite Hacc. reflexivity.
+Qed.
+
+Theorem scratch_per_call_isolated hid :
+  (forall a b, hid a = hid b -> a = b) ->
+  forall es h0, snd (hrun hid (h0, []) es) = hexpect es (fun t => h0 (hid t)).
+Proof. intros Hinj es h0. apply (hrun_gen hid Hinj es h0 [] (fun t => h0 (hid t))). reflexivity. Qed.
+
+Theorem shared_scratch_refuted :
+  exists es, snd (hrun (fun _ => 0) (fun _ => [], []) es) <> hexpect es (fun _ => []).
+Proof.
+  exists [(0, HReset); (0, HWrite [1]%N); (1, HReset); (1, HWrite [2]%N); (0, HSum); (1, HSum)].
+  vm_compute. discriminate.
+Qed.
